@@ -56,6 +56,7 @@ LEVEL["decided"] += " (R01.14) tee: every history of next / close operations on 
 LEVEL["decided"] += ' (R01.18) the adapter that turns an argument into an iterator accepts what the stdlib accepts (R03.2/R03.3, shared); (R01.19) fault cells, items only: for every use of a source / callable that either side makes, with that use raising, the same items come out and the tool ends the same way.'
 LEVEL["decided"] += ' R01.7 also: a private sentinel is told from an item by identity, never by == / !=.'
 LEVEL["technique"] += '; tee histories and the merge table by abstract evaluation over an object model with generator frames, compared with the executed stdlib'
+LEVEL["decided"] += ' (R01.20) the truth value of a predicate / function / key never decides whether it is used (R03.12, shared); the adapter table of the synchronous wrapper runs for an iterator and for a collection that produces its items when asked.'
 
 PASS_THROUGH = ["builtins.zip", "builtins._zip_inner", "builtins._zip_inner_strict", "builtins.filter",
                 "builtins.enumerate", "itertools.cycle", "itertools.batched", "itertools.chain._chain_iterator",
